@@ -25,6 +25,8 @@ META = {
 }
 META["explanation"] += " " + '(SB-bytes) Memory::Copy / SetToZero receive a byte count: an element count times sizeof(element) (14 call sites).'
 META["explanation"] += " " + 'Also: an element reference handed to a container method may refer to an element of that container (a += a[0]) and a same-class argument taken by const reference may be the container itself (h += h) -- neither is used after a call that may release the storage; no register-wide access sits outside the counted vector loop of Copy/SetToZero (a literal offset fits one register width only); (NARROW-unit) no code unit is narrowed below 32 bits in the string utilities.'
+META["explanation"] += " " + "(SB-capsize) Array's copying members record the source's size as capacity. (PR-keep) the appending members of StringStream / String / Array reach, through the class's own members, none that discards the content (call-graph rule; the discarding members are found from their bodies)."
+META["explanation"] += " " + '(NULL-store) a String / StringStream member writes through its own Storage() only where the empty, storage-less state was excluded (must-analysis; a non-strict bound such as len <= Length() does not exclude it unless len != 0 was established).'
 
 
 def size_updates(f):
@@ -286,6 +288,11 @@ def run(ctx):
     rules.append(r)
     from rules.common import rule_narrow_units
     rules.append(rule_narrow_units(ctx, m, ["StringUtils.hpp", "String.hpp", "StringStream.hpp", "StringView.hpp"]))
+    from rules.common import rule_capacity_size, rule_append_keeps
+    rules.append(rule_capacity_size(ctx, m))
+    rules.append(rule_append_keeps(ctx, m))
+    from rules.common import rule_null_store
+    rules.append(rule_null_store(ctx, m))
     return rules
 
 
